@@ -399,8 +399,11 @@ class OpenFlowNexus (EventMixin):
 
   def _connect (self, con):
     self._connections[con.dpid] = con
-  def _disconnect (self, dpid):
+  def _disconnect (self, dpid, con = None):
     if dpid in self._connections:
+      if con is not None and self._connections[dpid] is not con:
+        # A newer connection has taken over this DPID; leave it alone
+        return False
       del self._connections[dpid]
       return True
     return False
